@@ -22,7 +22,9 @@ THEOREMS = [
     dict(name="Snow.C05.holdCount_dwell", clause="dwell at a hold = duration to within one step", strength="full"),
     dict(name="Snow.C05.profile_perm", clause="independent of the listed order of holds", strength="full"),
     dict(name="Snow.C05.consumers_in_range", clause="every step index of a consumer is a valid sample", strength="full"),
-    dict(name="Snow.C05.segment_slip", clause="each program segment shifts the sampling clock by less than one step (tracks the program)", strength="partial"),
+    dict(name="Snow.C05.profile_tracks_program", clause="agrees with the continuous piecewise-linear program to within one step per program segment (every sample equals the program at a time within 2*dt*(#holds+1))", strength="full"),
+    dict(name="Snow.C05.segment_slip", clause="each ramp+hold pair shifts the sampling clock by more than -dt and less than 2*dt", strength="full"),
+    dict(name="Snow.C05.mkOpCond_wf", clause="the constructor maps every in-range user input to a well-formed program with the same holds", strength="full"),
     dict(name="Snow.C05.profileRaw_short_witness", clause="the unpadded profile (upstream) is one sample short for a ramp shorter than a step", strength="refutation-of-old-code"),
     dict(name="Snow.C05.nonvacuous", clause="hypotheses are satisfiable (concrete program)", strength="nonvacuity"),
 ]
@@ -249,8 +251,11 @@ def predicates(case, impl):
             last = max((i for i, x in enumerate(p) if x == th), default=None)
             if last is None or last == len(p) - 1:
                 continue  # plateau truncated by t_tot
+            # tolerance: one step for the ramp before the hold and one for the hold
+            # itself (in floating point the last ramp sample can round onto the hold
+            # temperature, e.g. L/dt = 180.00000000000003 gives 181 ramp samples)
             lo = d - 2 * dt - 1e-9 * max(1, d)
-            hi = d + dt + 1e-9 * max(1, d)
+            hi = d + 2 * dt + 1e-9 * max(1, d)
             if not (lo <= (m - 1) * dt <= hi):
                 out.append(Failure(clause="profile_dwell", key=f"profile_dwell|{site}|",
                                    detail=f"hold {th} for {d}: {m} samples at dt={dt}"))
@@ -297,7 +302,7 @@ def nontrivial(case, impl):
 # generators
 # ---------------------------------------------------------------------------
 def _structured(rng, small=False):
-    dt = rng.choice([0.5, 1, 2, 3, 5, 7, 0.1, 1.3, 2.5, 10])
+    dt = rng.choice([0.5, 1, 2, 3, 5, 7, 0.1, 1.3, 2.5, 10, 0.6, 1.2, 0.12, 0.3, 0.7, 0.9, 1.1, 0.35])
     rate = rng.choice([0.5 / 60, 0.1, 0.25, 0.5, 1, 2, 2.5, 1 / 3, 0.7, 0.05])
     start = rng.choice([20, 20.0, 5, 0, -5, 12.5, rng.uniform(-10, 30)])
     span = rng.choice([0, 0.3, 1, 5, 25, 40, rng.uniform(0, 50)])
@@ -318,7 +323,9 @@ def _structured(rng, small=False):
     ramp = span / rate
     tot_h = sum(h[1] for h in holds)
     t_tot = rng.choice([0, dt / 3, dt, ramp, ramp + tot_h, ramp + tot_h + 7.3 * dt, (ramp + tot_h) * 0.6,
-                        dt * rng.randint(1, 60), dt * rng.uniform(0, 80)])
+                        dt * rng.randint(1, 60), dt * rng.uniform(0, 80),
+                        # "round" totals that are multiples of dt only up to rounding
+                        round(dt * rng.randint(1, 120), 6), float(rng.choice([3, 6, 12, 30, 60, 90, 120]))])
     # keep the number of samples moderate
     nmax = 300 if small else 3000
     if t_tot / dt > nmax:
@@ -329,7 +336,7 @@ def _structured(rng, small=False):
                 holds=(holds if nh else None), isList=True, dt=dt)
     if nh == 1 and rng.random() < 0.5:
         case["isList"] = False
-    if t_tot / dt <= 40 and rng.random() < 0.3:
+    if t_tot / dt <= 400:
         case["flake"] = True
     return case
 
@@ -350,7 +357,7 @@ def _exact(rng):
     t_tot = rng.choice([0, 0.125, 1, 7, 7.5, 33, 64.25, 100, 250.5])
     return dict(kind="exact", exact=True, t_tot=t_tot, start=start, stop=stop, rate=rate,
                 holds=(holds if nh else None), isList=True, dt=dt,
-                flake=(t_tot / dt <= 40 and rng.random() < 0.3))
+                flake=(t_tot / dt <= 400))
 
 
 def _malformed(rng):
